@@ -3,16 +3,27 @@
 import json, os, shutil, re
 import vlib, models
 
-SUPPORTED = {'Add', 'Close', 'Wait', 'WUF', 'Pause', 'PauseAndWait', 'Resume', 'Stop', 'WaitAndStop', 'Restart', 'TunePool',
+SUPPORTED = {'Bind', 'Add', 'Close', 'Wait', 'WUF', 'Pause', 'PauseAndWait', 'Resume', 'Stop', 'WaitAndStop', 'Restart', 'TunePool',
              'Purge', 'QClose', 'CancelCtx', 'AddAll', 'BatchWait', 'BatchRead', 'Result'}
 READONLY = {'Status', 'NumPending', 'NumProcessing', 'NumIdle', 'NumConc', 'Metrics', 'WStatus', 'QPending', 'Yield', 'BatchPending'}
 
 
 def eligible(prog):
     c = prog['cfg']
-    if len(c.get('queues') or []) != 1 or c['queues'][0] not in ('fifo', 'prio', 'pfifo', 'pprio') or (c.get('consumers') or 1) > 1 or c.get('preload') or c.get('crash_at'):
+    qs = c.get('queues') or []
+    if (c.get('consumers') or 1) > 1 or c.get('preload') or c.get('crash_at') or c.get('idgen'):
         return False
-    if c.get('nobind') or c.get('idgen') or c.get('strategy') not in (None, '', 'rr'):
+    if c.get('nobind'):
+        # queues are bound by Bind ops; one binder only (the harness numbers queues by the order in which the Bind calls return)
+        binders = [cl for cl in prog['clients'] if any(o['op'] == 'Bind' for o in cl['ops'])]
+        if qs or len(binders) != 1 or any(o.get('kind') not in ('fifo', 'prio') for cl in binders for o in cl['ops'] if o['op'] == 'Bind'):
+            return False
+        if any(o['op'] in ('Add', 'AddAll', 'Purge', 'QClose') for cl in prog['clients'] if cl not in binders for o in cl['ops']):
+            return False
+    elif len(qs) == 1:
+        if qs[0] not in ('fifo', 'prio', 'pfifo', 'pprio'):
+            return False
+    elif not qs or any(k not in ('fifo', 'prio') for k in qs):
         return False
     for cl in prog['clients']:
         for o in cl['ops']:
@@ -26,6 +37,8 @@ def eligible(prog):
 def spec_op(o):
     if o['op'] in READONLY:
         return {'op': 'Nop', 'job': 0, 'n': 0}
+    if o['op'] in ('Purge', 'QClose'):
+        return {'op': o['op'], 'job': 0, 'n': o.get('q', 0) + 1}
     if o['op'] in ('AddAll', 'BatchWait', 'BatchRead'):
         return {'op': o['op'], 'job': 0, 'n': o.get('b', 0)}
     return {'op': o['op'], 'job': o.get('job', 0), 'n': o.get('n', 0)}
@@ -35,17 +48,29 @@ def write_case(ep, d):
     prog = ep['prog']
     cfg = prog['cfg']
     os.makedirs(d, exist_ok=True)
-    jobs, prio, bof = [], {}, {}
+    jobs, prio, bof, qof = [], {}, {}, {}
+    qkinds = list(cfg.get('queues') or [])
     for cl in prog['clients']:
         for o in cl['ops']:
+            if o['op'] == 'Bind':
+                qkinds.append(o['kind'])
             if o['op'] == 'Add':
                 jobs.append(o['job'])
                 prio[o['job']] = o.get('prio', 0)
+                qof[o['job']] = o.get('q', 0) + 1
             if o['op'] == 'AddAll':
                 for it in o.get('items') or []:
                     jobs.append(it['job'])
                     prio[it['job']] = it.get('prio', 0)
                     bof[it['job']] = o['b']
+                    qof[it['job']] = o.get('q', 0) + 1
+    nq = max(1, len(qkinds))
+    qkinds = qkinds or ['fifo']
+    for j in list(qof):
+        qof[j] = min(qof[j], nq + 1) if cfg.get('nobind') else min(qof[j], nq)
+    if cfg.get('nobind') and any(v > nq for v in qof.values()):
+        qkinds = qkinds + ['fifo'] * (max(qof.values()) - nq)      # submissions to queues that are never bound ("noqueue")
+        nq = len(qkinds)
     jobs = sorted(set(jobs)) or [1]
     for j in jobs:
         prio.setdefault(j, 0)
@@ -62,19 +87,25 @@ PGG == %s
 OutG == %s
 BatchG == %s
 FaultsG == {%s}
+QKindsG == %s
+QOfG == %s
 ====
 ''' % (progs, ' @@ '.join('(%d :> %d)' % (j, prio[j]) for j in jobs),
        models.tla_val(['disp%d' % (i + 1) for i in range(nrestart + 2)]), models.tla_val(['pg%d' % (i + 1) for i in range(9)]),
        ' @@ '.join('(%d :> "%s")' % (j, (prog.get('outcome') or {}).get(str(j), 'ok')) for j in jobs),
        ' @@ '.join('(%d :> %d)' % (j, bof.get(j, 0)) for j in jobs),
-       ', '.join('<<"%s", %d>>' % (a, b) for a, bs in (prog.get('faults') or {}).items() for b in bs))
+       ', '.join('<<"%s", %d>>' % (a, b) for a, bs in (prog.get('faults') or {}).items() for b in bs),
+       models.tla_val(qkinds), ' @@ '.join('(%d :> %d)' % (j, qof.get(j, 1)) for j in jobs))
     c = '''SPECIFICATION TSpec
 CONSTANTS
  Clients = {%s}
  Prog <- ProgG
  Jobs = {%s}
  Prio <- PrioG
- QKind = "%s"
+ QKinds <- QKindsG
+ QOf <- QOfG
+ Strategy = "%s"
+ NoBind = %s
  Nodes = {%s}
  DispSeq <- DispG
  PGSeq <- PGG
@@ -91,7 +122,7 @@ CONSTANTS
 CHECK_DEADLOCK FALSE
 CONSTRAINT HighWater
 POSTCONDITION Accepted
-''' % (', '.join('"%s"' % cl['name'] for cl in prog['clients']), ', '.join(map(str, jobs)), cfg['queues'][0],
+''' % (', '.join('"%s"' % cl['name'] for cl in prog['clients']), ', '.join(map(str, jobs)), cfg.get('strategy') or 'rr', 'TRUE' if cfg.get('nobind') else 'FALSE',
        ', '.join(str(i + 1) for i in range(nn)), cfg.get('conc', 1), cfg.get('ratio', 0), 'TRUE' if cfg.get('expiry_us', 0) > 0 else 'FALSE',
        'TRUE' if cfg.get('ctx') else 'FALSE', nrestart + 1, cfg.get('wk', 'plain'))
     open(os.path.join(d, 'TraceRun.tla'), 'w').write(txt)
@@ -107,7 +138,7 @@ POSTCONDITION Accepted
             d2 = {'ev': e['ev'], 'p': e.get('p', ''), 'job': e.get('job', 0) or 0, 'ok': bool(e.get('ok', True)), 'node': e.get('node', 0) or 0,
                   'n': e.get('n', 0) or 0, 'op': e.get('op', ''), 'seq': e.get('seq', 0), 'hasst': bool(st.get('ws')),
                   'st': {'ws': st.get('ws', ''), 'cur': st.get('cur', 0), 'conc': st.get('conc', 0), 'sig': st.get('sig', 0),
-                         'q': q[0] if q else [], 'idle': st.get('idle') or []}}
+                         'q': [(q[i] if i < len(q) else []) for i in range(nq)], 'idle': st.get('idle') or []}}
             if d2['ev'] == 'rel.enter':
                 d2['n'] = int(e.get('n', 0))
             if d2['ev'] == 'call' and d2['op'] in READONLY:
